@@ -55,6 +55,15 @@ def s2q(s):
 
 
 # ----------------------------------------------------------------------------- lean
+def lean_env():
+    """environment for running `lean` directly on the project's build products (what `lake env` sets up,
+    without taking lake's own lock, so drivers never wait for somebody else's `lake build`)"""
+    env = dict(os.environ)
+    lib = os.path.join(LEAN, ".lake", "build", "lib", "lean")
+    env["LEAN_PATH"] = lib + (os.pathsep + env["LEAN_PATH"] if env.get("LEAN_PATH") else "")
+    return env
+
+
 class LeanLock:
     def __enter__(self):
         os.makedirs(SCRATCH, exist_ok=True)
@@ -152,8 +161,7 @@ def audit(prop):
     path = os.path.join(LEAN, "D3", "Audit", prop + ".lean")
     if not os.path.exists(path):
         raise Infra("no audit file for " + prop)
-    p = subprocess.run(["lake", "env", "lean", path], cwd=LEAN, capture_output=True, text=True,
-                       timeout=1200)
+    p = subprocess.run(["lean", path], cwd=LEAN, capture_output=True, text=True, timeout=1200, env=lean_env())
     out = p.stdout + p.stderr
     thms, problems = {}, []
     # "'name' depends on axioms: [a, b]"  |  "'name' does not depend on any axioms"
@@ -210,7 +218,7 @@ class Driver:
             f.write("\n".join(self.lines) + "\n")
         try:
             with open(inp) as fin:
-                p = subprocess.run(["lake", "env", "lean", "--run", "drivers/%s.lean" % self.prop], cwd=LEAN,
+                p = subprocess.run(["lean", "--run", "drivers/%s.lean" % self.prop], cwd=LEAN, env=lean_env(),
                                    stdin=fin, capture_output=True, text=True, timeout=timeout)
         except subprocess.TimeoutExpired:
             raise Infra("lean driver timed out")
